@@ -24,6 +24,8 @@ type simCheckSpec struct {
 	Assume    []string
 	// Vacuity: statistics that must be non-zero for the run to count as having reached its subject
 	MustReach []string
+	// Extra runs supplementary passes and may add coverage keys / violations
+	Extra func(run *vkRun, tier string)
 }
 
 func cloneScenario(sc *simScenario) *simScenario {
@@ -157,6 +159,9 @@ func runSimCheck(spec *simCheckSpec, args []string) int {
 	}
 	if spec.Note != "" {
 		run.Cov["note"] = spec.Note
+	}
+	if spec.Extra != nil {
+		spec.Extra(run, tier)
 	}
 	return run.Finish()
 }
